@@ -5,6 +5,7 @@ import (
 	"regexp"
 	"sort"
 	"strings"
+	"sync"
 
 	"go.flow.arcalot.io/pluginsdk/schema"
 )
@@ -28,24 +29,25 @@ func chance(s Src, kind string, num, den int) bool {
 
 // TypeRecipe is a buildable description of a schema type.
 type TypeRecipe struct {
-	Kind    string       `json:"k"`
-	Min     *int64       `json:"min,omitempty"`
-	Max     *int64       `json:"max,omitempty"`
-	FMin    *float64     `json:"fmin,omitempty"`
-	FMax    *float64     `json:"fmax,omitempty"`
-	Units   string       `json:"units,omitempty"`
-	Pattern string       `json:"pat,omitempty"`
-	EnumS   []string     `json:"es,omitempty"`
-	EnumI   []int64      `json:"ei,omitempty"`
-	Display bool         `json:"disp,omitempty"`
-	Items   *TypeRecipe  `json:"items,omitempty"`
-	Keys    *TypeRecipe  `json:"keys,omitempty"`
-	Values  *TypeRecipe  `json:"vals,omitempty"`
-	Ref     string       `json:"ref,omitempty"`
-	Disc    string       `json:"disc,omitempty"`
-	Inline  bool         `json:"inline,omitempty"`
-	OneOf   [][2]string  `json:"oneof,omitempty"` // (discriminator value, object id), sorted
-	OneOfI  []OneOfIntRe `json:"oneofi,omitempty"`
+	Kind         string       `json:"k"`
+	Min          *int64       `json:"min,omitempty"`
+	Max          *int64       `json:"max,omitempty"`
+	FMin         *float64     `json:"fmin,omitempty"`
+	FMax         *float64     `json:"fmax,omitempty"`
+	Units        string       `json:"units,omitempty"`
+	Pattern      string       `json:"pat,omitempty"`
+	EnumS        []string     `json:"es,omitempty"`
+	EnumI        []int64      `json:"ei,omitempty"`
+	Display      bool         `json:"disp,omitempty"`
+	Items        *TypeRecipe  `json:"items,omitempty"`
+	Keys         *TypeRecipe  `json:"keys,omitempty"`
+	Values       *TypeRecipe  `json:"vals,omitempty"`
+	Ref          string       `json:"ref,omitempty"`
+	Disc         string       `json:"disc,omitempty"`
+	Inline       bool         `json:"inline,omitempty"`
+	ScopeMembers bool         `json:"scope_members,omitempty"` // one-of members are inline scopes instead of references
+	OneOf        [][2]string  `json:"oneof,omitempty"`         // (discriminator value, object id), sorted
+	OneOfI       []OneOfIntRe `json:"oneofi,omitempty"`
 }
 
 // OneOfIntRe is a member of an int-discriminated one-of.
@@ -120,6 +122,31 @@ func unitsByName(n string) *schema.UnitsDefinition {
 	return nil
 }
 
+// scopeOf is the scope recipe being built (builders run on one goroutine at a time per process stage;
+// it only serves inline-scope one-of members).
+var scopeOf *ScopeRecipe
+
+// leafObject reports whether an object has no references of its own (so that it can stand alone in an inline scope).
+func leafObject(o *ObjectRecipe) bool {
+	var refs func(t *TypeRecipe) bool
+	refs = func(t *TypeRecipe) bool {
+		if t == nil {
+			return false
+		}
+		switch t.Kind {
+		case "ref", "oneof_s", "oneof_i":
+			return true
+		}
+		return refs(t.Items) || refs(t.Keys) || refs(t.Values)
+	}
+	for i := range o.Props {
+		if refs(&o.Props[i].T) {
+			return false
+		}
+	}
+	return true
+}
+
 // BuildType builds a fresh schema type from a recipe.
 func BuildType(t *TypeRecipe) schema.Type {
 	switch t.Kind {
@@ -171,6 +198,13 @@ func BuildType(t *TypeRecipe) schema.Type {
 		// schemas with aliased members do
 		refs := map[string]*schema.RefSchema{}
 		for _, kv := range t.OneOf {
+			if t.ScopeMembers && scopeOf != nil {
+				if o := scopeOf.object(kv[1]); o != nil && leafObject(o) {
+					// an inline scope of its own around a copy of the member object
+					m[kv[0]] = schema.NewScopeSchema(BuildObject(o))
+					continue
+				}
+			}
 			if refs[kv[1]] == nil {
 				refs[kv[1]] = schema.NewRefSchema(kv[1], nil)
 			}
@@ -206,6 +240,10 @@ func BuildObject(o *ObjectRecipe) *schema.ObjectSchema {
 
 // BuildScope builds a fresh scope schema.
 func BuildScope(sr *ScopeRecipe) *schema.ScopeSchema {
+	buildMu.Lock()
+	defer buildMu.Unlock()
+	scopeOf = sr
+	defer func() { scopeOf = nil }()
 	var root *schema.ObjectSchema
 	var rest []*schema.ObjectSchema
 	for i := range sr.Objects {
@@ -218,6 +256,8 @@ func BuildScope(sr *ScopeRecipe) *schema.ScopeSchema {
 	}
 	return schema.NewScopeSchema(root, rest...)
 }
+
+var buildMu sync.Mutex
 
 // ---------------------------------------------------------------- generation
 
@@ -468,6 +508,9 @@ func (g *gen) typ(ids []string, idx int, depth int, allowObj bool) TypeRecipe {
 		for i := 0; i < n; i++ {
 			obj := ids[idx+1+i]
 			if k == "oneof_s" {
+				if i == 0 {
+					t.ScopeMembers = g.s.Choose("g.scopemembers", 4) == 3
+				}
 				t.OneOf = append(t.OneOf, [2]string{fmt.Sprintf("m%d", i), obj})
 				// aliases: several discriminator values may select the same member object
 				if g.s.Choose("g.alias", 3) == 2 {
